@@ -323,6 +323,9 @@ def initialize_lua(ctx: "Wtp") -> None:
             and not attr_name.startswith("_")
             # partial(fn, ctx).args would hand the context to Lua
             and not isinstance(obj, partial)
+            # pcall() hands Lua the Python exception of a failing helper;
+            # its args/request/obj/... may be arbitrary Python objects
+            and not isinstance(obj, BaseException)
         ):
             return attr_name
         raise AttributeError("access denied")
